@@ -88,6 +88,27 @@ class patched:
         setattr(self.obj, self.name, self.old)
 
 
+class FixedStream:
+    """stand-in for torch.rand under a fixed seed: the k-th number drawn after reset() is always the same (the counterexample's draws first,
+    then a fixed pseudo-random tail), whatever shapes are requested"""
+
+    def __init__(self, values):
+        tail = np.random.default_rng(12345).uniform(0.05, 0.95, size=4096)
+        self.stream = np.concatenate([np.asarray(values, dtype=float).reshape(-1), tail])
+        self.pos = 0
+
+    def reset(self):
+        self.pos = 0
+
+    def __call__(self, *shape, dtype=None, device=None, **kw):
+        if len(shape) == 1 and not isinstance(shape[0], int):
+            shape = tuple(shape[0])
+        n = int(np.prod(shape)) if shape else 1
+        out = self.stream[self.pos:self.pos + n]
+        self.pos += n
+        return torch.tensor(out, dtype=dtype or torch.float64).reshape(tuple(shape))
+
+
 HANDLERS = {}
 
 
